@@ -351,7 +351,13 @@ func genC03(t *rapid.T) c03Case {
 		for i := 0; i < n; i++ {
 			m := malform{Kind: rapid.IntRange(1, 3).Draw(t, fmt.Sprintf("mal%dkind", i)), Off: rapid.IntRange(0, 4096).Draw(t, fmt.Sprintf("mal%doff", i))}
 			m.B = rapid.SampledFrom([]byte{'"', '\n', '<', '{', 0xff, 0x00, '~', '*', ',', '}', ']', '&', '[', ':', '\\', '\r'}).Draw(t, fmt.Sprintf("mal%dbyte", i))
-			m.Ins = []byte(rapid.SampledFrom([]string{"\"", "\n\n", "<x>", "}{", "\xff\xfe", "~~", ",,,", "\r", "</rec>", "]", "</root>", "XYZ*1~", "{\"a\":1} {\"a\":2}", "[[", "<a><a>", "]]>", "<!--", "&#0;", "\\u", "ISA*", "\x1b", "\xef\xbb\xbf"}).Draw(t, fmt.Sprintf("mal%dins", i)))
+			m.Ins = []byte(rapid.SampledFrom([]string{"\"", "\n\n", "<x>", "}{", "\xff\xfe", "~~", ",,,", "\r", "</rec>", "]", "</root>", "XYZ*1~", "{\"a\":1} {\"a\":2}", "[[", "<a><a>", "]]>", "<!--", "&#0;", "\\u", "ISA*", "\x1b", "\xef\xbb\xbf",
+				// XML prologs (effective at offset 0): encoding labels incl. aliases of utf-8 and unknown ones, other versions, DTDs
+				`<?xml version="1.0" encoding="utf8"?>`, `<?xml version="1.0" encoding="UTF8"?>`, `<?xml version="1.0" encoding="unicode-1-1-utf-8"?>`,
+				`<?xml version="1.0" encoding="ISO-8859-1"?>`, `<?xml version="1.0" encoding="UTF-16"?>`, `<?xml version="1.0" encoding="no-such-charset"?>`,
+				`<?xml version="1.0" encoding=""?>`, `<?xml version="1.1"?>`, `<!DOCTYPE r [<!ENTITY e "v">]>`, `<r xmlns:p="">`, `<p:r xmlns:p="u"/>`, "&e;", "<![CDATA[",
+				// JSON / EDI / CSV oddities
+				"[[[[[[[[[[[[[[[[[[[[[[[[[[[[[[[[", "1e999999", `"\ud800"`, "{\"\":{\"\":[]}}", "\x00", "ISA*00*~IEA~", "?~", "\"\"\"", "\r\r\n"}).Draw(t, fmt.Sprintf("mal%dins", i)))
 			c.Mals = append(c.Mals, m)
 		}
 	case 2:
